@@ -141,7 +141,9 @@ def find_recombination(
     positions: Sequence[int],
     recombcost: Sequence[int],
 ) -> Sequence[RecombinationEvent]:
-    assert len(transmission_vector) == len(positions) == len(recombcost)
+    assert len(transmission_vector) == len(positions)
+    # the cost computers return a single 0 for an empty list of positions
+    assert len(recombcost) == len(positions) or (len(positions) == 0 and len(recombcost) == 1)
     assert set(components.keys()).issubset(set(positions))
     position_to_index = {pos: i for i, pos in enumerate(positions)}
     blocks = defaultdict(list)
